@@ -54,6 +54,8 @@ def run(ctx):
     r4 = ctx.rule("C08.R4", "TABLE: hypotest's default test statistic equals both calculators' default; create_calculator offers exactly 'asymptotics' and 'toybased'", "TABLE", floor=3)
     r5 = ctx.rule("C08.R5", "FWD: calctype, data, pdf, init_pars, par_bounds, fixed_params and **kwargs reach create_calculator in its positional order; teststatistic, distributions use the tested POI", "FWD", floor=3)
 
+    r6 = ctx.rule("C08.R6", "END-TO-END/HISTORY: hypotest -> create_calculator -> AsymptoticCalculator (constructor, teststatistic, distributions, pvalues, expected_pvalues) -> generate_asimov_data interpreted as ONE composition, four calls in one process (qtilde on both branches, q0, q; other mu and data): the statistic is evaluated at the tested mu on this call's data and on the Asimov data of the mu=0 (q0: mu=1) conditional fit to this call's data, every fit gets this call's model/start values/bounds/fixed flags, and observed value, tail probabilities, median and 5-point band are the asymptotic formulae of these two numbers", "E2E", floor=4)
+    _hypotest_end_to_end(ctx, r6, repo)
     # ---------------- R1 / R5 by interpretation
     CLsb_o, CLb_o, CLs_o = Poly.atom("CLsb_obs"), Poly.atom("CLb_obs"), Poly.atom("CLs_obs")
     CLsb_e = [Poly.atom(f"CLsb_exp{i}") for i in range(5)]
@@ -315,3 +317,136 @@ def _show(v):
     if isinstance(v, Obj):
         return v.name
     return str(v)
+
+
+def _hypotest_end_to_end(ctx, rid, repo):
+    """hypotest -> create_calculator -> AsymptoticCalculator (constructor, teststatistic, distributions, pvalues,
+    expected_pvalues) -> generate_asimov_data, all interpreted, with the test statistic, the fixed-POI fit and
+    pdf.expected_data as recorders whose results carry what they were evaluated on; three calls in one process."""
+    from ..alg import RaisedInFragment
+    from ..objmodel import World
+    at, c = Poly.atom, Poly.const
+    hyp = repo.func(INF, "hypotest")
+    errs = (Undecided, KeyError, TypeError, ValueError, IndexError, AttributeError)
+
+    def tag(d):
+        if isinstance(d, list):
+            return ",".join(str(to_poly(x)) for x in d)
+        return getattr(d, "name", "?")
+
+    from ..alg import AutoRegion
+    rec = {"stat": [], "fpf": []}
+    region = AutoRegion()  # statistics evaluated on something else than expected still get (generic) values: a deviation, not a refusal
+    region["NEGINF"] = Fraction(-10 ** 9)
+
+    def get_test_stat(a, k):
+        name = a[0]
+
+        def tsf(a2, k2):
+            kk = dict(k2)
+            for nm, v in zip(("mu", "data", "pdf", "init_pars", "par_bounds", "fixed_params"), a2):
+                kk[nm] = v
+            t_ = f"{name}:{to_poly(kk['mu'])};{tag(kk['data'])}"
+            rec["stat"].append((name, kk, t_))
+            q = at(f"Q<{t_}>")
+            pars = ([at(f"FIXEDFIT<{t_}>")], [at(f"FREEFIT<{t_}>")])
+            return (q, pars) if kk.get("return_fitted_pars") is True else q
+        return PyFunc(tsf, f"teststat[{name}]")
+
+    def fixed_poi_fit(a, k):
+        kk = dict(k)
+        for nm, v in zip(("poi_val", "data", "pdf", "init_pars", "par_bounds", "fixed_params"), a):
+            kk[nm] = v
+        t_ = f"{to_poly(kk['poi_val'])};{tag(kk['data'])}"
+        rec["fpf"].append((kk, t_))
+        return Obj(f"BESTFIT<{t_}>")
+
+    def expected_data(recv, a, k):
+        if not (isinstance(recv, Obj) and recv.name == "pdf"):
+            from ..alg import NotHandled
+            raise NotHandled()
+        return Obj(f"ASIMOV<{getattr(a[0], 'name', a[0])}>")
+
+    try:
+        w = World({"__strict__": True, "get_test_stat": get_test_stat, "fixed_poi_fit": fixed_poi_fit, ".expected_data": expected_data,
+                   "HypoTestFitResults": lambda a, k: Obj("fitresults", dict(k))}, region=region,
+                  module_env={"log": Obj("log"), "exceptions": Obj("exceptions"), "utils": Obj("utils")})
+        for rel in (INF, UT, CALC):
+            m = repo.module(rel)
+            for q, g in m.funcs.items():
+                if "." not in q and q not in ("__dir__", "get_test_stat", "hypotest") and q not in w.base:
+                    w.add_func(g)
+        w.add_func(hyp)
+        for cn in ("AsymptoticCalculator", "AsymptoticTestStatDistribution"):
+            w.add_class(repo.cls(CALC, cn))
+        w.base["ToyCalculator"] = lambda a, k: (_ for _ in ()).throw(Undecided("toy calculator not part of this scenario"))
+        w.ext = None
+        cfg = Obj("config", {"poi_index": c(0)})
+        pdf = Obj("pdf", {"config": cfg})
+    except errs as e:
+        ctx.unrecognised(rid, hyp, "hypotest end to end", f"world not buildable: {type(e).__name__}: {e}")
+        return
+    data1, data2 = [at("d1_0"), at("d1_1")], [at("d2_0"), at("d2_1")]
+    plan = [
+        ("first call, qtilde, sqrt(q) < sqrt(qA)", "qtilde", at("mu_1"), data1, Fraction(1), Fraction(2)),
+        ("second call, other mu and data, qtilde, sqrt(q) > sqrt(qA)", "qtilde", at("mu_2"), data2, Fraction(3), Fraction(2)),
+        ("third call, q0 on the first data", "q0", at("mu_3"), data1, Fraction(3, 2), Fraction(5, 2)),
+        ("fourth call, q", "q", at("mu_1"), data2, Fraction(1, 2), Fraction(3)),
+    ]
+    cdf = lambda x: fn("normal_cdf", to_poly(x))
+    for lab, stat, mu, data, s_rep, a_rep in plan:
+        init, bounds, fixed = Obj("init_" + lab[:5]), Obj("bounds_" + lab[:5]), [False, False]
+        amu = 1 if stat == "q0" else 0
+        # the tested value: q0 is always evaluated at the mu the caller passes (hypotest does not rewrite it)
+        t_obs = f"{stat}:{to_poly(mu)};{tag(data)}"
+        asimov_name = f"ASIMOV<BESTFIT<{to_poly(to_poly(amu))};{tag(data)}>>"
+        t_asi = f"{stat}:{to_poly(mu)};{asimov_name}"
+        Q, QA = at(f"Q<{t_obs}>"), at(f"Q<{t_asi}>")
+        s_, a_ = fn("sqrt", Q), fn("sqrt", QA)
+        region[str(s_)], region[str(a_)] = s_rep, a_rep
+        region[str(Q)], region[str(QA)] = s_rep ** 2, a_rep ** 2
+        n_s, n_f = len(rec["stat"]), len(rec["fpf"])
+        try:
+            out = w.call_func(hyp, [mu, data, pdf, init, bounds, fixed], {"test_stat": stat, "return_tail_probs": True, "return_expected": True, "return_expected_set": True})
+        except RaisedInFragment as e:
+            ctx.violated(rid, hyp, f"hypotest end to end [{lab}]", f"raises {e.exc_name} on a model with a floating POI")
+            continue
+        except errs as e:
+            ctx.unrecognised(rid, hyp, f"hypotest end to end [{lab}]", f"not interpretable: {type(e).__name__}: {e}")
+            continue
+        T = (Q - QA) / (2 * a_) if (stat == "qtilde" and s_rep > a_rep) else s_ - a_
+        CLsb, CLb = cdf(-(T + a_)), cdf(-T)
+        band = [cdf(-(Poly.const(N) + a_)) / cdf(-Poly.const(N)) if stat != "q0" else cdf(-(Poly.const(N) + a_)) for N in (2, 1, 0, -1, -2)]
+        want = [CLsb if stat == "q0" else CLsb / CLb, [CLb] if stat == "q0" else [CLsb, CLb], band[2], band]
+        probs = []
+        stats_, fpfs = rec["stat"][n_s:], rec["fpf"][n_f:]
+        if [t for _, _, t in stats_] != [t_obs, t_asi]:
+            probs.append(f"the test statistic is evaluated on {[t for _, _, t in stats_]}; needed: the observed data and the Asimov data of the mu={amu} conditional fit to THIS call's data, both at the tested mu")
+        elif len(fpfs) != 1 or fpfs[0][1] != f"{to_poly(to_poly(amu))};{tag(data)}":
+            probs.append(f"the Asimov data come from fixed-POI fit(s) {[t for _, t in fpfs]}, needed one at mu={amu} on this call's data")
+        else:
+            for what, kk in [("test statistic", stats_[0][1]), ("Asimov test statistic", stats_[1][1]), ("Asimov fit", fpfs[0][0])]:
+                if kk.get("pdf") is not pdf or kk.get("init_pars") is not init or kk.get("par_bounds") is not bounds or kk.get("fixed_params") is not fixed:
+                    probs.append(f"the {what} does not receive this call's model, start values, bounds and fixed flags")
+                    break
+        if not probs:
+            ok = isinstance(out, (tuple, list)) and len(out) == 4
+            if ok:
+                try:
+                    got = [to_poly(out[0]), [to_poly(x) for x in out[1]], to_poly(out[2]), [to_poly(x) for x in out[3]]]
+                except (Undecided, TypeError):
+                    got = None
+                if got is None:
+                    probs.append("the result is not laid out as (observed, [tail probabilities], median expected, [band of 5])")
+                elif got[0] != want[0]:
+                    probs.append(f"observed value {got[0]}, asymptotic formula {want[0]}")
+                elif got[1] != want[1]:
+                    probs.append(f"tail probabilities {[str(x) for x in got[1]]}, asymptotic formulae {[str(x) for x in want[1]]}")
+                elif got[3] != want[3] or got[2] != want[2]:
+                    probs.append(f"expected band {[str(x) for x in got[3]]} (median {got[2]}), asymptotic formulae {[str(x) for x in want[3]]}")
+            else:
+                probs.append("the result is not (observed, tail probabilities, median expected, band)")
+        if probs:
+            ctx.violated(rid, hyp, f"hypotest end to end [{lab}]", f"hypotest({stat}) composed with the asymptotic calculator does not give the asymptotic answer for this call: {probs[0]}", expected="observed / expected values of arXiv:1007.1727 from this call's statistic and Asimov statistic", found=probs[0])
+        else:
+            ctx.holds(rid, f"{INF}::hypotest -> AsymptoticCalculator [{lab}]", "statistic on data and on the Asimov data of this call; observed, tails, median and band by the asymptotic formulae")
